@@ -50,6 +50,6 @@ class LocalDeme(AbstractDeme):
         return self._n_evals
 
     def _history_callback(self, intermediate_result) -> None:
-        ind = Individual(intermediate_result.x, problem=self._problem)
+        ind = Individual(intermediate_result.x.copy(), problem=self._problem)
         ind.fitness = intermediate_result.fun
         self._run_history.append(ind)
